@@ -25,6 +25,7 @@
 (*               Invoke(h,o) one planned handler runs with outcome o       *)
 (*               ProcFinish  records / last-handled / release -> request   *)
 (*               SrvMerge    the server applies the merge-patch            *)
+(*               SrvStatus   ... the status part, as a request of its own  *)
 (*               SrvJson     ... applies or refuses (422) the JSON-patch   *)
 (*               Reply       the worker gets the (last) response           *)
 (*               SleepWake / SleepExpire (-> touch request)                *)
@@ -102,14 +103,15 @@ NoCyc == [s |-> [type |-> "none"], reason |-> "none", initial |-> FALSE, sel |->
           purge |-> FALSE, inv |-> {}, fns |-> {}, req |-> [k |-> "none"], fresh |-> 0, ffins |-> <<>>, rv |-> 0, rem |-> {}, gone |-> FALSE, delays |-> {}, skipped |-> FALSE,
           wake |-> 0, last |-> [h |-> "none"],
           todo |-> {}, cur |-> "none", ph |-> "none", age |-> 0, sdelays |-> {}, ct |-> 0,      \* the stopping of daemons: see StopSet / Stage
-          sub |-> [p |-> "none", plan |-> <<>>]]                                               \* the sub-handlers of the handler that is running
+          sub |-> [p |-> "none", plan |-> <<>>],                                               \* the sub-handlers of the handler that is running
+          res |-> [h \in H |-> 0]]                                                              \* results returned in this cycle (0: none): status.<handler id>
 FreshMem == [known |-> FALSE, nbl |-> FALSE, fho |-> FALSE, rem |-> {}, forever |-> {}, run |-> [h \in DHs |-> NoRun]]
 FreshWk == [exp |-> 0, ctime |-> 0, pr |-> FALSE, eos |-> FALSE]      \* eos: the end-of-stream marker sits behind what is queued
 
 Init ==
   /\ conf \in ConfSet
   /\ obj = [exists |-> TRUE, rv |-> 1, ess |-> 1, lh |-> 0, prog |-> [h \in H |-> NoRec], fins |-> <<>>,
-            deleting |-> FALSE, dummy |-> 0, match |-> TRUE]
+            deleting |-> FALSE, dummy |-> 0, match |-> TRUE, res |-> [h \in H |-> 0]]
   /\ chan = <<>>
   /\ bl = << [type |-> "ADDED", rv |-> 1, ess |-> 1, lh |-> 0, prog |-> [h \in H |-> NoRec], fins |-> <<>>,
               deleting |-> FALSE, match |-> TRUE, dummy |-> FALSE] >>
@@ -384,7 +386,13 @@ CWaitTimeout ==   \* the consistency timeout has elapsed since the patch: assume
 (***************************************************************************)
 (* One handler invocation: execution.execute_handler_once                  *)
 (***************************************************************************)
+\* Handlers may return results (optional conf.res = [ssub, vals]): a result is delivered into status.<handler id> with the cycle's patch;
+\* on a kind with the status subresource (conf.res.ssub) the status part of the patch is a second merge request, to /status.
+HasR == "res" \in DOMAIN conf
+SSub == HasR /\ conf.res.ssub
+ResOf(o) == IF "res" \in DOMAIN o THEN o.res ELSE 0
 Outcomes == {[k |-> "ok", d |-> 0], [k |-> "perm", d |-> 0], [k |-> "exc", d |-> 0]} \cup {[k |-> "temp", d |-> d] : d \in Delays}
+            \cup (IF HasR THEN {[k |-> "ok", d |-> 0, res |-> v] : v \in conf.res.vals} ELSE {})
 
 After(p, h, o) ==       \* HandlerState.with_outcome + the look-ahead of the retries limit and of the timeout
   LET r2 == p.r + 1
@@ -435,7 +443,8 @@ InvokeWith(h, o) ==
                  todo == {x \in S : Awake(np1[x])}
              IN /\ cyc' = [cyc EXCEPT !.np = np1, !.sub = [p |-> h, plan |-> PlanIn(SubOf(h), todo, np1)], !.last = LastOf(h, p)]
                 /\ pc' = "subs" /\ UNCHANGED <<bud, gh>>
-        ELSE /\ cyc' = [cyc EXCEPT !.plan = Tail(@), !.np[h] = q, !.inv = @ \cup {h}, !.last = LastOf(h, p)]
+        ELSE /\ cyc' = [cyc EXCEPT !.plan = Tail(@), !.np[h] = q, !.inv = @ \cup {h}, !.last = LastOf(h, p),
+                                   !.res[h] = IF o.k = "ok" /\ ResOf(o) # 0 THEN ResOf(o) ELSE @]
              /\ bud' = [bud EXCEPT !.fails = IF o.k = "ok" THEN @ ELSE @ + 1]
              /\ gh' = GhAfter(h, q, o.k)
              /\ UNCHANGED pc
@@ -493,16 +502,18 @@ ProcFinish ==
                     \cup cyc.sdelays           \* ... and what the stopping of daemons asked for
          release == s.type # "DELETED" /\ s.deleting /\ Blocked(s) /\ cdelays = {} /\ ~cyc.skipped
          fns == cyc.fns \cup (IF release THEN {"del"} ELSE {})
-         nonempty == progChanged \/ lhNew # 0 \/ fns # {}
+         resAny == \E h \in H : cyc.res[h] # 0          \* deliver_results: status.<id> = result, whatever is there
+         nonempty == progChanged \/ lhNew # 0 \/ fns # {} \/ resAny
          \* apply(): a non-empty patch also clears the touch dummy -- if the view has one
-         hasMerge == progChanged \/ lhNew # 0 \/ (nonempty /\ s.dummy)
+         \* (with the status subresource the status part travels in a request of its own: hasMerge is about the body part)
+         hasMerge == progChanged \/ lhNew # 0 \/ (nonempty /\ s.dummy) \/ (resAny /\ ~SSub)
          m2 == IF closing THEN [mem EXCEPT !.fho = TRUE] ELSE mem
      IN
      /\ mem' = IF s.type = "DELETED" THEN mem ELSE m2
      /\ IF s.type = "DELETED"
         THEN pc' = "post" /\ cyc' = [cyc EXCEPT !.gone = TRUE]     \* nothing is applied for DELETED events
         ELSE IF nonempty
-        THEN /\ pc' = IF hasMerge THEN "r1" ELSE IF HasOps(s.fins, fns) THEN "r3" ELSE "post"
+        THEN /\ pc' = IF hasMerge THEN "r1" ELSE IF resAny /\ SSub THEN "r2" ELSE IF HasOps(s.fins, fns) THEN "r3" ELSE "post"
                    \* no merge part: the JSON-patch tests the view's own version; no ops: no request at all
              /\ cyc' = [cyc EXCEPT !.req = [k |-> "patch", prog |-> progPatch, np |-> np, lh |-> lhNew, fns |-> fns,
                                             closing |-> closing, done |-> done],
@@ -525,18 +536,32 @@ SrvMerge ==
                                         [] r.prog[h] = "purge" -> NoRec
                                         [] OTHER -> obj.prog[h]]
               o2 == [obj EXCEPT !.prog = newprog, !.lh = IF r.lh # 0 THEN r.lh ELSE @,
-                                !.dummy = IF cyc.s.dummy THEN 0 ELSE @]    \* cleared only if the view showed it
+                                !.dummy = IF cyc.s.dummy THEN 0 ELSE @,    \* cleared only if the view showed it
+                                !.res = IF SSub THEN @ ELSE [h \in H |-> IF cyc.res[h] # 0 THEN cyc.res[h] ELSE @[h]]]
               \* (a record written after an invocation carries new timestamps: the object changes even if the abstract record is the same)
               changed == o2 # obj \/ \E h \in cyc.inv : r.prog[h] = "store"
           IN /\ IF changed THEN Commit(o2) ELSE UNCHANGED <<obj, chan>>
              /\ cyc' = [cyc EXCEPT !.fresh = obj'.rv, !.rv = obj'.rv, !.ffins = obj'.fins]
-             /\ pc' = "r1done"
+             /\ pc' = IF SSub /\ (\E h \in H : cyc.res[h] # 0) THEN "r2" ELSE "r1done"
              /\ gh' = [gh EXCEPT !.succ = IF r.closing /\ changed THEN [h \in H |-> 0] ELSE @,
                                  \* F8: the cycle is closed on the essence of THIS view; a handler of the cycle may have seen an older one
                                  !.f8 = IF r.closing /\ changed THEN \E h \in H : gh.cseen[h] \notin {0, cyc.s.ess} ELSE @,
                                  !.cseen = IF r.closing /\ changed THEN [h \in H |-> 0] ELSE @,
                                  !.blindwrite = @ \/ (~cyc.s.match /\ (o2.prog # obj.prog \/ o2.lh # obj.lh))]
   /\ UNCHANGED <<bl, up, stopping, mem, wk, now, bud>>
+  /\ UNCHANGED conf
+
+\* the status part of the patch of a kind with the status subresource: a second merge request, to /status (nothing but the
+\* results of this cycle's handlers is in it); the version it gives is the one the worker will expect
+SrvStatus ==
+  /\ pc = "r2" /\ up
+  /\ IF ~obj.exists
+     THEN pc' = "post" /\ cyc' = [cyc EXCEPT !.rv = 0, !.rem = {}, !.delays = {}] /\ UNCHANGED <<obj, chan>>      \* 404: ends silently
+     ELSE LET o2 == [obj EXCEPT !.res = [h \in H |-> IF cyc.res[h] # 0 THEN cyc.res[h] ELSE @[h]]]
+          IN /\ IF o2 # obj THEN Commit(o2) ELSE UNCHANGED <<obj, chan>>
+             /\ cyc' = [cyc EXCEPT !.fresh = obj'.rv, !.rv = obj'.rv, !.ffins = obj'.fins]
+             /\ pc' = "r1done"
+  /\ UNCHANGED <<bl, up, stopping, mem, wk, now, bud, gh>>
   /\ UNCHANGED conf
 
 \* the response of the merge arrives; the JSON-patch (if any op results) is computed on the returned body and sent
@@ -654,7 +679,7 @@ DStep == \E h \in DHs : DEnter(h) \/ DSeeFlag(h) \/ DCancelled(h) \/ DExit(h) \/
 (* Time: the clock may not pass a moment at which the operator has         *)
 (* something to do.                                                        *)
 (***************************************************************************)
-OpStep == ProcBegin \/ CWaitWoken \/ CWaitTimeout \/ Invoke \/ ProcFinish \/ SrvMerge \/ Reply1 \/ SrvJson \/ Post
+OpStep == ProcBegin \/ CWaitWoken \/ CWaitTimeout \/ Invoke \/ ProcFinish \/ SrvMerge \/ SrvStatus \/ Reply1 \/ SrvJson \/ Post
           \/ SleepWake \/ SleepExpire \/ SrvTouch \/ DaemonOpStep
 \* Not urgent: Down (the process exits some time after a graceful stop) and Deliver (how long the stream
 \* takes to hand over a committed change -- the echo delay of C07 -- is up to the environment)
